@@ -130,6 +130,9 @@ def check(ctx):
                 else:
                     r4.ok(None)
     r2.require_floor(10, "reachable (call site, path alternative) pairs")
+    # which directory is "the configured output directory": the one named by the first configuration file found (shared with C19-D3)
+    from c19 import check_first_config_wins
+    check_first_config_wins(P, r2)
     rules.append(r2)
     r4.samples.append("%d reachable mutating operands, none derived from GenerateConfig.project_path" % r4.discharged)
     rules.append(r4)
